@@ -1,6 +1,7 @@
 """C05 - in-thread pipes neither lose, duplicate nor reorder buffers.
 
 R-own (shared), R-1to1, R-fifo, R-dup-all (DESIGN §4 C05)."""
+import itertools
 import re
 
 from upv import facts, control, own, ownrule
@@ -94,7 +95,7 @@ def check_1to1(rep, prog, W):
 def check_fifo(rep, prog):
     rep.rule('R-fifo', 'every UPIPE_HELPER_INPUT instantiation: hold_input appends at the tail (ulist_add) and increments NB_UREFS; pop_input / '
              'output_input take from the head (ulist_pop) and decrement; a failed output re-inserts at the head (unshift) and returns; '
-             'in the pipe\'s input function the handler is only called under X_check_input() (held buffers go first)')
+             'in every function of the pipe that calls the handler directly (the input function, control functions) the call is under X_check_input() or after X_output_input() (held buffers go first)')
     inputs = ownrule.input_functions(prog)
     handlers = ownrule.handler_functions(prog)
     for uname, u in sorted(prog.units.items()):
@@ -153,9 +154,15 @@ def check_fifo(rep, prog):
                     handler = d['n']
             if not handler or 'check_input' not in fs:
                 continue
-            for fname in sorted(inputs.get(uname, ())):
-                if not fname.startswith(P):
-                    continue
+            # every function of the unit that calls the handler directly (the
+            # input function, but also a control function that would feed the
+            # handler behind the back of the held list)
+            callers = set(f for f in inputs.get(uname, ()) if f.startswith(P))
+            for f2 in u.funcs.values():
+                if f2.macro != 'UPIPE_HELPER_INPUT' and f2.blocks and f2.name != handler and \
+                        any(c[2].get('fn') == handler for c in f2.calls()):
+                    callers.add(f2.name)
+            for fname in sorted(callers):
                 fn = u.funcs.get(fname)
                 if fn is None:
                     continue
@@ -180,6 +187,179 @@ def check_fifo(rep, prog):
                                 handler, badc[0][2].get('l'), P))
                 else:
                     rep.add('R-fifo', inst, HOLDS, fn.loc, handler=handler)
+
+
+
+# calls through which a one-to-one pipe may act on its input buffer (anything
+# that is not a pure reader), frozen from the documented behaviour of each pipe
+PURE_RE = re.compile(r'(_get_|_match_|_cmp_|_size$|_peek|_read$|_unmap$|_dump|^ubase_check$|^upipe_(verbose|dbg|notice|info|warn|err)(_va)?$)')
+TOUCH = {
+    'lib/upipe-modules/upipe_idem.c': set(),
+    'lib/upipe-modules/upipe_setflowdef.c': set(),
+    'lib/upipe-modules/upipe_setattr.c': {'udict_alloc', 'udict_set', 'udict_iterate', 'store:uref->udict'},
+    'lib/upipe-modules/upipe_probe_uref.c': {'upipe_throw'},
+    'lib/upipe-modules/upipe_skip.c': {'uref_block_resize'},
+    'lib/upipe-modules/upipe_htons.c': {'uref_block_write', 'ubuf_block_copy', 'uref_attach_ubuf'},
+    'lib/upipe-modules/upipe_delay.c': {'uref_clock_add_date_sys', 'uref_clock_add_date_prog', 'uref_clock_add_date_orig'},
+    'lib/upipe-modules/upipe_match_attr.c': {'indirect:match_uint8_t', 'indirect:match_uint64_t'},
+}
+
+
+def check_touch(rep, prog):
+    rep.rule('R-touch', 'input function of a one-to-one pipe (and the local functions it hands the buffer to): every call that receives the input '
+             'uref (or its dictionary / buffer) and every store through it is a pure reader, the output / free call, or one of the operations '
+             'the pipe is documented to perform (table `documented_effects`)')
+    inputs = ownrule.input_functions(prog)
+    rep.tables['documented_effects'] = {k: sorted(v) for k, v in TOUCH.items()}
+    for uname, allowed in sorted(TOUCH.items()):
+        u = prog.units.get(uname)
+        if u is None:
+            raise facts.AnalysisBroken('anchor vanished: %s' % uname)
+        todo = [(f, None) for f in sorted(inputs.get(uname, ()))]
+        if not todo:
+            raise facts.AnalysisBroken('anchor vanished: no upipe_input slot in %s' % uname)
+        seen, bad, nsites = set(), [], 0
+        while todo:
+            fname, pidx = todo.pop()
+            fn = u.funcs.get(fname)
+            if fn is None or not fn.blocks or (fname, pidx) in seen:
+                continue
+            seen.add((fname, pidx))
+            if fn.macro and fn.macro.startswith('UPIPE_HELPER_'):
+                continue           # X_output and friends: the helper's business (R-own, C04)
+            if pidx is None:
+                idx = [i for i, p in enumerate(fn.params) if p['t'] == 'struct uref *']
+                if not idx:
+                    continue
+                pidx = idx[0]
+            pname = fn.params[pidx]['n']
+
+            def through(n, pname=pname):
+                r = facts.root_of(n)
+                return isinstance(r, dict) and r.get('k') == 'ref' and r.get('n') == pname
+            for bid, st, x in fn.nodes():
+                if x.get('k') == 'call':
+                    args = x.get('args', [])
+                    hit = [i for i, a in enumerate(args) if through(a)]
+                    if not hit:
+                        continue
+                    nsites += 1
+                    name = x.get('fn')
+                    if name is None:
+                        pth = path_of(x.get('callee')) or '?'
+                        name = 'indirect:' + pth.split('->')[-1].split('.')[-1]
+                    if name in ('uref_free',) or own.FORWARD_RE.search(name) or PURE_RE.search(name) or name in allowed:
+                        continue
+                    callee = u.funcs.get(name)
+                    if callee is not None and callee.blocks and not (callee.macro or '').startswith('UPIPE_HELPER_'):
+                        todo.append((name, hit[0]))
+                        continue
+                    if callee is not None and (callee.macro or '').startswith('UPIPE_HELPER_'):
+                        continue
+                    bad.append((name, x.get('l'), fname))
+                elif is_assign(x) or facts.is_incdec(x):
+                    lhs = x.get('lhs') if is_assign(x) else x.get('e')
+                    l = strip(lhs)
+                    if isinstance(l, dict) and l.get('k') in ('mem', 'un', 'idx') and through(l):
+                        nsites += 1
+                        key = 'store:' + (path_of(l) or '?').replace(pname, 'uref', 1)
+                        if key not in allowed:
+                            bad.append((key, x.get('l'), fname))
+        if bad:
+            for name, line, fname in sorted(set(bad)):
+                rep.add('R-touch', '%s:%s' % (fname, name), VIOLATED, '%s:%s' % (uname, line),
+                        what='%s applies %s to its input buffer (line %s); the documented effects of this pipe are: %s' % (
+                            fname, name, line, ', '.join(sorted(allowed)) or 'none (the buffer is forwarded untouched)'))
+        else:
+            rep.add('R-touch', uname.split('/')[-1], HOLDS, uname, sites=nsites, functions=sorted(f for f, _ in seen))
+
+
+def swap16(tokens):
+    out = list(tokens)
+    for i in range(0, len(out) - 1, 2):
+        out[i], out[i + 1] = out[i + 1], out[i]
+    return out
+
+
+def compositions(n, maxparts=3):
+    if n == 0:
+        yield []
+        return
+    for k in range(1, maxparts + 1):
+        for cuts in itertools.combinations(range(1, n), k - 1):
+            b = [0] + list(cuts) + [n]
+            yield [b[i + 1] - b[i] for i in range(k)]
+
+
+def check_payload(rep, prog):
+    """htons and skip: the payload transformation itself, by interpreting the
+    input function on ghost buffers of every small size and segmentation"""
+    from upv import ghost, absint
+    rep.rule('R-payload', 'upipe_htons_input / upipe_skip_input interpreted on ghost block buffers (octets are symbolic tokens compared by identity) '
+             'of every size 0..6, every segmentation into at most 3 segments, first segment writable or shared, mapping aligned or not: exactly one '
+             'output per input, the same uref, whose payload is the input with each pair of octets swapped (htons) / without its first `offset` '
+             'octets (skip, offsets 0..size+1); nothing leaked, no access outside a mapped window')
+    nruns = 0
+    for uname, fname, rec in (('lib/upipe-modules/upipe_htons.c', 'upipe_htons_input', 'upipe_htons'),
+                              ('lib/upipe-modules/upipe_skip.c', 'upipe_skip_input', 'upipe_skip')):
+        u = prog.units.get(uname)
+        fn = u.funcs.get(fname) if u else None
+        if fn is None:
+            raise facts.AnalysisBroken('anchor vanished: %s' % fname)
+        outname = rec + '_output'
+        for size in range(0, 7):
+            toks = [('b', 'o%d' % i) for i in range(size)]
+            for segs in compositions(size):
+                for shared in ((False, True) if fname == 'upipe_htons_input' else (False,)):
+                    offsets = [0] if fname == 'upipe_htons_input' else list(range(0, size + 2))
+                    for off in offsets:
+                        inst = '%s:size=%d,segs=%s,shared=%d,offset=%d' % (fname, size, '+'.join(map(str, segs)) or '-', shared, off)
+
+                        def mk(toks=toks, segs=segs, shared=shared, off=off):
+                            m = ghost.BlockMachine(prog, u, rec, {'offset': off})
+                            m.output_fns = {outname}
+                            m.token_values = True
+                            m.in_uref = m.new_uref(toks)
+                            b = m.bufs[m.urefs[m.in_uref[1]].ubuf]
+                            b.segs = list(segs) if len(segs) > 1 else None
+                            b.shared = shared
+                            return m
+                        verdict, detail = HOLDS, {}
+                        for m, out in absint.explore(mk, fn, lambda m: [('obj', 'pipe'), m.in_uref, ('null',)], max_scripts=64):
+                            nruns += 1
+                            what = None
+                            if out[0] == 'finding':
+                                what = str(out[1])
+                            elif out[0] == 'undecided':
+                                verdict, detail = UNDECIDED, {'why': out[1]}
+                                break
+                            elif out[0] == 'ok':
+                                outs = [e for e in m.events if e[0] == 'output']
+                                inu = m.urefs[m.in_uref[1]]
+                                loud = any(e[0] in ('log', 'throw') for e in m.events)
+                                lu, lb = m.leaked()
+                                if lu or lb:
+                                    what = 'leak: urefs %s buffers %s' % (lu, lb)
+                                elif not outs:
+                                    if not loud:
+                                        what = 'the input is dropped silently'
+                                elif len(outs) != 1 or outs[0][1] != inu.id:
+                                    what = 'not exactly one output of the input uref (outputs: %s)' % [o[1] for o in outs]
+                                else:
+                                    data = outs[0][2]
+                                    if fname == 'upipe_htons_input':
+                                        want = swap16(toks)
+                                    else:
+                                        want = toks[off:] if off <= size else toks
+                                    if data != want:
+                                        what = 'payload output is %s, expected %s' % (
+                                            ' '.join(t[1] if isinstance(t, tuple) else str(t) for t in (data or [])),
+                                            ' '.join(t[1] for t in want))
+                            if what:
+                                verdict, detail = VIOLATED, {'what': what, 'script': list(m.choices)}
+                                break
+                        rep.add('R-payload', inst, verdict, fn.loc, **detail)
+    rep.tables['R-payload'] = {'abstract_runs': nruns}
 
 
 def check_dup(rep, prog, W):
@@ -232,6 +412,8 @@ def run(tier='quick', repo=None):
     check_1to1(rep, prog, W)
     check_fifo(rep, prog)
     check_dup(rep, prog, W)
+    check_touch(rep, prog)
+    check_payload(rep, prog)
     rep.assumptions = [
         'ownership contract of the public API as frozen in coverage.tables.consumer_table',
         'allocation-failure paths and failure branches of calls whose failure is not input dependent are out of scope',
